@@ -139,8 +139,8 @@ Definition from_type_def_path (path : list string) (root : string) (alloc : toke
       | Some t => Ok t
       | None => Panic "Unknown prelude type"
       end
-  | _ => if forallb ident_lexb path then Ok (rel_path (root :: path))
-         else Panic "format_ident: not an identifier"
+  | _ => if forallb path_seg_okb path then Ok (rel_path (root :: path))
+         else Panic "format_ident / parse_quote: not a path segment"
   end.
 
 Section Resolve.
